@@ -193,7 +193,9 @@ class Automation:
             duration = self.default_duration
         self.modulations.clear()
 
-        duration_ticks = int(math.ceil(duration / self.tick_duration))
+        # Round before taking the ceiling: a duration that is a whole number of ticks (5/24 beats at
+        # 24 ticks per beat = 5.000000000000001 ticks) must not be stretched by a tick.
+        duration_ticks = int(math.ceil(round(duration / self.tick_duration, 8)))
         if duration_ticks == 0:
             return
     
@@ -214,7 +216,9 @@ class Automation:
         if duration is None:
             duration = self.default_duration
 
-        duration_ticks = int(math.ceil(duration / self.tick_duration))
+        # Round before taking the ceiling: a duration that is a whole number of ticks (5/24 beats at
+        # 24 ticks per beat = 5.000000000000001 ticks) must not be stretched by a tick.
+        duration_ticks = int(math.ceil(round(duration / self.tick_duration, 8)))
         delta_per_tick = value / (duration_ticks if duration_ticks > 0 else 1)
         envelope_ticks = int(envelope * duration_ticks)
         modulation = AutomationModulation(delta_per_tick=delta_per_tick,
